@@ -1,6 +1,7 @@
 package sched
 
 import (
+	"strings"
 	"testing"
 )
 
@@ -21,6 +22,7 @@ type Stats struct {
 	MaxDepth    int
 	Capped      bool
 	Skipped     int // executions skipped (known crashers)
+	Diverged    int // prefixes that did not replay to the same menus even when retried (subtree not explored)
 }
 
 type item struct {
@@ -55,6 +57,15 @@ func Explore(
 			continue
 		}
 		e := Exec(t, cfg, it.prefix, it.fps, body)
+		for retry := 0; retry < 2 && e.Verdict == "engine" && strings.HasPrefix(e.EngineErr, "replay divergence"); retry++ {
+			e = Exec(t, cfg, it.prefix, it.fps, body)
+		}
+		if e.Verdict == "engine" && strings.HasPrefix(e.EngineErr, "replay divergence") {
+			// residual nondeterminism below the hook granularity (Go runtime order of same-instant
+			// wake-ups): the subtree below this prefix is not explored and the run is not exhaustive
+			st.Diverged++
+			continue
+		}
 		st.Execs++
 		st.Transitions += len(e.Points)
 		if len(e.Points) > len(it.prefix) {
